@@ -18,7 +18,7 @@ def m_part(run, scr, nat):
     dump = ms.load_mir()
     decls = ms.decls
     f = dump.find_impl_method("new", r"-> Result<BestConversions, ")
-    run.functions.append("convert::builder::BestConversions::new, convert::convert_f64 (MIR; unit look-up abstract, sort order arbitrary)")
+    run.functions.append("convert::builder::BestConversions::new, convert::convert_f64 and the sort_by comparator closure (MIR; unit look-up abstract, sort_by = any order the executed comparator accepts)")
     ub = decls.structs["UnitBuilder"]
     uf = decls.structs.lookup("Unit", "convert")
     pqn = [v for v, _ in decls.enums["PhysicalQuantity"]]
@@ -63,18 +63,37 @@ def m_part(run, scr, nat):
                     out.append((pc_ + conds[:i_] + ["(= %s 1)" % r.discr.expr], it_._mk_enum("Result", "Err", [r.variants["Err"].fields["0"]]), "return", None))
             return out
 
-        def m_sort_any_order(it_, a, c_):
-            """`sort_by` with whatever comparator: the elements in SOME order (over-approximation: every permutation is explored)"""
+        ORD = ["Less", "Equal", "Greater"]
+
+        def m_partial_cmp_f64(it_, a, c_):
+            """`f64::partial_cmp` on finite values (ratios are assumed finite): Some(Less / Equal / Greater)"""
+            x, y = it_.deref(a[0], it_.cur_env), it_.deref(a[1], it_.cur_env)
+            d = sem.define("Int", "(ite (< %s %s) 0 (ite (= %s %s) 1 2))" % (x.expr, y.expr, x.expr, y.expr), "ord")
+            o = Enum("Ordering", SV("isize", d), {n: Agg("Ordering::" + n, {}) for n in ORD}, ORD)
+            return it_._mk_enum("Option", "Some", [o])
+
+        def m_sort_by_comparator(it_, a, c_):
+            """`sort_by`: the elements in an order the comparator (executed from the MIR on every adjacent pair of the result)
+            does not object to - for a total order exactly the sorted orders (stability, i.e. the order of ties, is left open)"""
             import itertools
             v = it_.deref(a[0], it_.cur_env)
             out = []
             perms = list(itertools.permutations(range(len(v.items))))
-            sel = sem.sym_int("perm%d_%d" % (k, len(getattr(m_sort_any_order, "n", []))), "isize", 0, len(perms) - 1)
-            m_sort_any_order.n = getattr(m_sort_any_order, "n", []) + [1]
             for pi, perm in enumerate(perms):
-                env2 = fork_env(it_.cur_env)
-                it_.write_ref(a[0], VecVal([v.items[i] for i in perm]), env2)
-                out.append((["(= %s %d)" % (sel, pi)], Opaque("unit"), "return", None, {"env": env2}))
+                res = [v.items[i] for i in perm]
+                pairs = [Agg("(&usize, &usize)", {"0": res[i], "1": res[i + 1]}) for i in range(len(res) - 1)]
+                for pc2, env2, acc in it_.run_closure_seq(a[1], pairs, unpack=True):
+                    if any(kd == "panic" for kd, _ in acc):
+                        out.append((pc2, None, "panic", [x for kd, x in acc if kd == "panic"][0]))
+                        continue
+                    conds = []
+                    for _, r in acc:
+                        if not (isinstance(r, Enum) and list(r.names) == ORD):
+                            raise mir.Unsupported("sort_by comparator returned %r" % (r,))
+                        conds.append("(not (= %s 2))" % r.discr.expr)
+                    env3 = fork_env(env2)
+                    it_.write_ref(a[0], VecVal(res), env3)
+                    out.append((pc2 + conds, Opaque("unit"), "return", None, {"env": env3}))
             return out
         mine = {
             r"^UnitIndex::get_unit_id$": m_get_unit_id,
@@ -86,7 +105,8 @@ def m_part(run, scr, nat):
             r"^<std::slice::Iter<'_, std::string::String> as Iterator>::map::<": models.m_iter_map,
             r"^<std::iter::Map<std::slice::Iter<'_, std::string::String>, .*> as Iterator>::collect::<Result<Vec<usize>": m_collect_result,
             r"^<Vec<usize> as DerefMut>::deref_mut$": models.m_identity,
-            r"^std::slice::<impl \[usize\]>::sort_by::<": m_sort_any_order,
+            r"^std::slice::<impl \[usize\]>::sort_by::<": m_sort_by_comparator,
+            r"partial_cmp": m_partial_cmp_f64,
             r"^Vec::<\(f64, usize\)>::with_capacity$": lambda it_, a, c_: VecVal([]),
             r"^<Vec<usize> as IntoIterator>::into_iter$": models.m_vec_into_iter_owned,
             r"^<std::vec::IntoIter<usize> as IntoIterator>::into_iter$": models.m_identity,
@@ -135,6 +155,11 @@ def m_part(run, scr, nat):
                     if knows_q:
                         cs.append("(= u0_pq for_pq)")
                     cond = c08.conj(cs)
+                if ok:
+                    ids = [int(t.fields["1"].expr) for t in lst.items]
+                    inc = c08.conj(["(<= u%d_ratio u%d_ratio)" % (ids[i], ids[i + 1]) for i in range(k - 1)])
+                    items.append(("BestConversions::new on %d names path[%s]: the best list is in increasing size (each unit's ratio to the "
+                                  "base is at least that of the unit before it)" % (k, p), pcs + ["(not %s)" % inc], "unsat"))
                 items.append(("BestConversions::new on %d names path[%s]: a list is built only when every name resolves to a unit of one physical quantity (the one "
                               "the list is for); it holds every named unit once, the first one with factor 1" % (k, p), pcs + ["(not %s)" % cond], "unsat"))
             else:
@@ -147,7 +172,7 @@ def m_part(run, scr, nat):
             def cb(model, ob, item):
                 bad = best_vectors(run, nat)
                 if bad:
-                    run.violation("kernel=BestConversions::new best units of another physical quantity", bad, dict(engine="mir-smt", replay="best_units"))
+                    run.violation("kernel=BestConversions::new best units: " + ("order" if "increasing size" in bad else "another physical quantity"), bad, dict(engine="mir-smt", replay="best_units"))
                     ob["status"] = "violated"
                 else:
                     run.inconclusive.append("C16 %s: candidate does not reproduce through the public builder" % name[:90])
@@ -160,7 +185,7 @@ def m_part(run, scr, nat):
             run.samples.append({"engine": "mir-smt", "obligation": items[0][0]})
     run.assumptions += [
         "UnitIndex::get_unit_id is abstract: name j resolves to the declared unit j or is unknown; units have arbitrary physical quantity, "
-        "finite positive ratio and finite difference; `sort_by` is over-approximated by every order of the list",
+        "finite positive ratio and finite difference; `sort_by` returns the elements in any order its comparator - executed from the MIR on every adjacent pair - accepts (ties in any order)",
     ]
     run.bounds.append("M: best lists of 2 names (3 in the thorough tier)")
     ms.close()
@@ -170,6 +195,7 @@ BEST_CASES = [
     # (best list for `time`, expectation): "ok" = builds, "error" = refused with a build error; a panic is never acceptable
     ('["min","s"]', "ok"),
     ('["s"]', "ok"),
+    ('["s","min"]', "ok"),          # "ok" also requires the built list to be in increasing size
     ('[]', "error"),
     ('["nope"]', "error"),
     ('["min","m"]', "error"),       # `m` is a unit of length
@@ -203,7 +229,6 @@ def check(run):
     run.not_covered += [
         "name / symbol / alias / SI-prefixed resolution, duplicate keys, layering and precedence of units files, fractions configuration, "
         "that the bundled converter equals the shipped units file (ConverterBuilder is HashMap<Arc<str>, usize> bookkeeping over user strings)",
-        "that the best list is in increasing size (the comparator of sort_by is not executed)",
     ]
 
 
